@@ -259,7 +259,7 @@ def main() -> None:
         "components_stubbed": list(ENGINE.components_stubbed),
         "fault_kinds_not_applicable": list(ENGINE.fault_kinds_not_applicable),
         "budget": {t: ENGINE.budget(t) for t in ("quick", "thorough")},
-        "selftest_indices": {str(n): ENGINE.selftest_indices(n) for n in (12, 48, 200)},
+        "selftest_indices": {str(n): ENGINE.selftest_indices(n) for n in (8, 12, 48, 200)},
         "timeout": {t: ENGINE.timeout(t) for t in ("quick", "thorough")},
         "deadline": {t: ENGINE.deadline(t) for t in ("quick", "thorough")},
         "extra": ENGINE.extra_meta(),
